@@ -274,9 +274,16 @@ impl<'a> Gen<'a> {
             // leading context
             let nctx = if g == 0 { self.rng.range(0, 3) } else { self.rng.range(1, 3) };
             for _ in 0..nctx {
+                let px = pfx(LineKind::Context, self.rng);
+                if self.rng.chance(1, 7) {
+                    // an empty unchanged line (no token)
+                    self.push(px, LineKind::Context, None, section, hunk);
+                    old += 1;
+                    new += 1;
+                    continue;
+                }
                 let t = self.token();
                 let text = self.body_text(&t, p.multibyte, None);
-                let px = pfx(LineKind::Context, self.rng);
                 self.push(format!("{}{}", px, text), LineKind::Context, Some(t), section, hunk);
                 old += 1;
                 new += 1;
